@@ -10,7 +10,13 @@ optional exponent; `s.render pre E` is its text, `s.value base b` the number it 
 groups that may carry `_` separators; `t.render E` is its text, `t.value` the number it denotes.
 Limits of the implementation (hypotheses, not part of the property): `withinB base s` /
 `FloatWithin t` — no digit group longer than CPython's `int(str)` limit of 4300 digits, and at most
-6 significant digits in the exponent of a float token.
+6 significant digits in the exponent of a float token (repaired front end only).
+
+State of the code: findings F24 (negation of an already negative zero), F25 (`-0` as an integer
+argument) and F26 (`0x.8`) are repaired and the theorems below are about the repaired code.
+F5 is NOT repaired: a decimal float token still reaches the parser as a Python `float`;
+`literal_counterexample` / `literal_exact_partial` describe the current code, and
+`literal_exact_repaired` proves that the proposed repair (`parseFloatRepaired`) has the property.
 -/
 import Fpy.Proof.LiteralFront
 namespace Fpy.Props.C06
@@ -104,13 +110,73 @@ theorem integer_spec (g : Group) (hne : g ≠ []) (hg : g.WF)
   simp only [pyNumber_decint g hne hg hlz hlim, bind, Except.bind, parseConstant]
   rfl
 
-/-- **`literal_exact`**: a **decimal float token** — any digit count, with or without a point, an
-exponent (`e` or `E`, signed or not), `_` separators, leading and trailing zeros, values far outside
-the binary64 range — evaluates under the real context to exactly the positional value of its
+/-! ### Decimal float tokens: the trip through Python's `float` (finding F5, not repaired)
+
+`Parser._parse_constant` receives the `ast.Constant` Python built, i.e. a binary64 number, and
+turns it into `Integer(int(x))` when `x` is integral and into `Decnum(str(x))` otherwise.
+So the value of a decimal float token is that of the double nearest to the spelling (when integral)
+or of the shortest decimal that reads back as that double — not the spelling's. -/
+
+/-- what the front end makes of a float token, stated outright -/
+theorem float_token_path (cs ip fp : List Char) (ex : Option (List Char))
+    (h : pyNumber cs = .ok (.float ip fp ex)) :
+    parseExpr (.num cs) = .ok (parseFloatLegacy (floatValue ip fp ex)) := by
+  unfold parseExpr
+  simp only [h, bind, Except.bind, parseConstant]
+
+/-- **Counterexamples** (current code): spellings whose front-end value differs from the number
+written (each line: the value obtained; it is not the value of the spelling). -/
+theorem literal_counterexample :
+    -- 0.1234567890123456789  ↦  0.12345678901234568
+    ((frontValue (.num "0.1234567890123456789".toList)).toOption
+        = some (.rat (1543209862654321 / 12500000000000000)) ∧
+      (⟨.none, ['0'], some "1234567890123456789".toList, none⟩ : Sci).value 10 10
+        ≠ 1543209862654321 / 12500000000000000) ∧
+    -- 1e23  ↦  99999999999999991611392
+    ((frontValue (.num "1e23".toList)).toOption = some (.rat 99999999999999991611392) ∧
+      (⟨.none, ['1'], none, some (.none, ['2', '3'])⟩ : Sci).value 10 10 ≠ 99999999999999991611392) ∧
+    -- 9007199254740993.0  ↦  9007199254740992
+    ((frontValue (.num "9007199254740993.0".toList)).toOption = some (.rat 9007199254740992) ∧
+      (⟨.none, "9007199254740993".toList, some ['0'], none⟩ : Sci).value 10 10 ≠ 9007199254740992) ∧
+    -- a spelling that *is* a binary64 number is still changed: 0.1000000000000000055511151231257827021181583404541015625 ↦ 0.1
+    ((frontValue (.num "0.1000000000000000055511151231257827021181583404541015625".toList)).toOption = some (.rat (1 / 10)) ∧
+      (⟨.none, ['0'], some "1000000000000000055511151231257827021181583404541015625".toList, none⟩ : Sci).value 10 10 ≠ 1 / 10) ∧
+    -- beyond the binary64 range: 1e999 is an error, 1e-400 is zero, -1e-400 is the negative zero
+    ((frontValue (.num "1e999".toList)).toOption = none ∧
+      (frontValue (.num "1e-400".toList)).toOption = some (.rat 0) ∧
+      (frontValue (.neg (.num "1e-400".toList))).toOption = some .negZero) := by
+  decide +kernel
+
+/-- **Partial result** (current code): a float token evaluates exactly in two situations, which
+together are all there is —
+* the nearest double is integral and equals the spelling's value `r`, or
+* the nearest double is not integral and the shortest decimal that reads back as it has value `r`.
+What is *not* proved is a syntactic sufficient condition (e.g. "at most 15 significant digits
+and inside the normal range"): that needs the error analysis of binary64 rounding and of the
+shortest-digits search, which is not formalised here.  The hypotheses are decidable on any
+concrete spelling (see the examples below). -/
+theorem literal_exact_partial (cs ip fp : List Char) (ex : Option (List Char)) (x : RF) (r : Rat)
+    (h : pyNumber cs = .ok (.float ip fp ex)) (hv : floatValue ip fp ex = .fin x)
+    (hx : (∃ i : Int, x.toInt? = some i ∧ (i : Rat) = r) ∨
+          (x.toInt? = none ∧ (Node.decnum (reprFloat (.fin x))).asReal = .ok (.rat r))) :
+    frontValue (.num cs) = .ok (.rat r) := by
+  unfold frontValue
+  rw [float_token_path cs ip fp ex h, hv]
+  cases hx with
+  | inl hi =>
+    obtain ⟨i, hi, hr⟩ := hi
+    simp only [parseFloatLegacy, hi, bind, Except.bind, Node.evalReal, Node.asReal, Node.asRational, Except.map, hr]
+  | inr hn =>
+    simp only [parseFloatLegacy, hn.1, bind, Except.bind, Node.evalReal, hn.2]
+
+/-- **`literal_exact_repaired`** (the proposed repair of F5, `parseFloatRepaired`: re-read the
+token's text): a **decimal float token** — any digit count, with or without a point, an exponent
+(`e` or `E`, signed or not), `_` separators, leading and trailing zeros, values far outside the
+binary64 range — evaluates under the real context to exactly the positional value of its
 spelling.  Nothing depends on how Python's own float parser would have rounded it. -/
-theorem literal_exact (E : Char) (hE : E = 'e' ∨ E = 'E') (t : PyFloat) (h : t.WF) (hl : FloatWithin t) :
-    frontValue (.num (t.render E)) = .ok (.rat t.value) :=
-  frontValue_float E hE t h hl
+theorem literal_exact_repaired (E : Char) (hE : E = 'e' ∨ E = 'E') (t : PyFloat) (h : t.WF) (hl : FloatWithin t) :
+    frontValueRepaired (t.render E) = .ok (.rat t.value) :=
+  frontValueRepaired_float E hE t h hl
 
 /-! ## Signed zero -/
 
@@ -226,15 +292,21 @@ example : (⟨[(false, '1'), (true, '0')], true, [(false, '0'), (true, '1')], so
       = "1_0.0_1E0_1".toList ∧
     (⟨[(false, '1'), (true, '0')], true, [(false, '0'), (true, '1')], some (.none, [(false, '0'), (true, '1')])⟩ : PyFloat).value = 1001 / 10 := by
   decide +kernel
--- the spellings that Python's float would have changed
-example : (frontValue (.num "0.1234567890123456789".toList)).toOption = some (.rat (1234567890123456789 / 10000000000000000000)) ∧
-    (frontValue (.num "1e23".toList)).toOption = some (.rat 100000000000000000000000) ∧
-    (frontValue (.num "9007199254740993.0".toList)).toOption = some (.rat 9007199254740993) ∧
-    (frontValue (.num "1e-400".toList)).toOption = some (.rat (1 / (10 : Rat) ^ 400)) ∧
-    (frontValue (.num "1e999".toList)).toOption = some (.rat ((10 : Rat) ^ 999)) ∧
-    (frontValue (.num "1_0.0_1E0_1".toList)).toOption = some (.rat (1001 / 10)) ∧
-    (frontValue (.num "1.".toList)).toOption = some (.rat 1) ∧ (frontValue (.num ".5".toList)).toOption = some (.rat (1 / 2)) := by
+-- the repaired function on the spellings that Python's float changes
+example : (frontValueRepaired "0.1234567890123456789".toList).toOption = some (.rat (1234567890123456789 / 10000000000000000000)) ∧
+    (frontValueRepaired "1e23".toList).toOption = some (.rat 100000000000000000000000) ∧
+    (frontValueRepaired "9007199254740993.0".toList).toOption = some (.rat 9007199254740993) ∧
+    (frontValueRepaired "1e-400".toList).toOption = some (.rat (1 / (10 : Rat) ^ 400)) ∧
+    (frontValueRepaired "1_0.0_1E0_1".toList).toOption = some (.rat (1001 / 10)) ∧
+    (frontValueRepaired "1.".toList).toOption = some (.rat 1) ∧ (frontValueRepaired ".5".toList).toOption = some (.rat (1 / 2)) := by
   decide +kernel
+-- the hypotheses of `literal_exact_partial` hold for everyday literals (current code)
+example : (frontValue (.num "0.1".toList)).toOption = some (.rat (1 / 10)) ∧
+    (frontValue (.num "3.14".toList)).toOption = some (.rat (157 / 50)) ∧
+    (frontValue (.num "1e-6".toList)).toOption = some (.rat (1 / 1000000)) ∧
+    (frontValue (.num "2.5e-3".toList)).toOption = some (.rat (1 / 400)) ∧
+    (frontValue (.num "1e22".toList)).toOption = some (.rat 10000000000000000000000) ∧
+    (frontValue (.num "1_0.0_1E0_1".toList)).toOption = some (.rat (1001 / 10)) := by decide +kernel
 example : (frontValue (.num "123456789012345678901234567890".toList)).toOption =
     some (.rat 123456789012345678901234567890) := by decide +kernel
 -- signed zeros
